@@ -690,7 +690,11 @@ fn late_yield(kind: u8, obj: usize) {
             rt::IN_UNIT = true;
             // add_middleware / add_reducer start by taking the list's lock: where the suspended
             // reducer context holds it (while it iterates the list) the call waits - skipped here
-            if LATE_WHAT == 0 {
+            if LATE_WHAT == 2 {
+                // a reader thread: get_state() while the reducer context is inside the callback
+                LATE_READ = rt::in_ctx(rt::CTX_CLIENT, || s.get_state());
+                LATE_DONE = 1;
+            } else if LATE_WHAT == 0 {
                 if s.reducers.try_lock().is_ok() {
                     rt::in_ctx(rt::CTX_CLIENT, || s.add_reducer(Box::new(ScriptReducer { idx: 2 })));
                     LATE_DONE = 1;
@@ -706,6 +710,60 @@ fn late_yield(kind: u8, obj: usize) {
     }
 }
 static mut LATE_WHAT: u8 = 0;
+static mut LATE_READ: St = St { val: 0, seq: 0 };
+
+/// S-read-mid (C08): a reader's get_state() placed INSIDE a callback of the reduce phase (real
+/// do_reduce, 2 reducers, 2 middlewares): no action has been reduced completely yet, so the
+/// reader must see the state the store held before the phase - never the output of a part
+/// of the reducer chain.
+fn s_read_mid(kind: u8, obj: usize) {
+    rt::reset_all();
+    script::reset();
+    crossbeam::hooks::set_native(Some(late_yield), None);
+    let init: St = kani::any();
+    let store = mk_store(2, 2, 4, BackpressurePolicy::BlockOnFull, init);
+    unsafe {
+        core::ptr::write(&mut DISP_STORE, Some(store.clone()));
+        LATE_DONE = 0;
+        LATE_WHAT = 2;
+        LAST_REDUCER = 1;
+        CUR_MODE = 0;
+        CUR = 0;
+    }
+    rt::arm(kind, obj, 0);
+    let a0: Act = kani::any();
+    let d0: Arc<dyn Dispatcher<Act>> = Arc::new(store.clone());
+    // the loop hands do_reduce a copy of the published state
+    let (_n, out0, e0) = in_reducer(|| store.do_reduce(&a0, init, d0, rt::now_model()));
+    core::mem::forget(e0);
+    unsafe {
+        rt::PLACE_ARMED = false;
+    }
+    let done = unsafe { LATE_DONE } == 1;
+    if done {
+        chk!(8, unsafe { LATE_READ } == init, "get_state() during the reduce phase returns the state left by the last completely reduced action, never the output of a part of the reducer chain");
+    }
+    kani::cover!(done && out0 != init, "COVER the reader ran inside the callback and the action changes the state");
+    unsafe {
+        core::ptr::write(&mut DISP_STORE, None);
+    }
+    core::mem::forget(store);
+    finish!(8);
+}
+macro_rules! read_mid_harness {
+    ($($name:ident = ($k:expr, $o:expr);)+) => { $(
+        harness! {
+            #[kani::stub(crossbeam::hooks::yield_point, late_yield)]
+            #[kani::unwind(6)]
+            fn $name() { s_read_mid($k, $o); }
+        }
+    )+ };
+}
+read_mid_harness! {
+    s_read_mid_in_reducer1 = (rt::P_REDUCE, 1);
+    s_read_mid_in_reducer0 = (rt::P_REDUCE, 0);
+    s_read_mid_in_before_reduce1 = (rt::P_BEFORE_REDUCE, 1);
+}
 
 fn s_late(what: u8, kind: u8, obj: usize) {
     rt::reset_all();
